@@ -118,6 +118,11 @@ def xonly_inputs(rng, n, agg):
         weights = {"kind": "none"}
     elif agg in ("corrcoef", "covariance"):
         fact = gen.fact_case(rng, n, k=int(rng.integers(2, 4)), kind="f8", dyadic=False)
+        if rng.random() < 0.2:
+            off = float(gen.pick(rng, [1.0e6, 1.7e9]))
+            v = fact["values"]
+            fact["values"] = numpy.where(numpy.isfinite(v), numpy.round(v * 37.0) + off, v)
+            fact["offset"] = off
         if agg == "covariance":
             weights = gen.weight_case(rng, n, cls=gen.pick(rng, ["none", "array", "tuple"]), dyadic=False)
             # strictly positive weights (a zero weight sum is not a covariance)
@@ -128,6 +133,12 @@ def xonly_inputs(rng, n, agg):
             weights = {"kind": "none"}
     elif agg == "stddev":
         fact = gen.fact_case(rng, n, k=gen.pick(rng, [None, None, 2, 3]), dyadic=bool(rng.random() < 0.3))
+        if fact["values"].dtype.kind == "f" and rng.random() < 0.25:
+            # large magnitude, small spread (timestamps, ids): where a one-pass formula loses everything
+            off = float(gen.pick(rng, [1.0e6, 1.7e9, -3.0e8, 2.0 ** 40]))
+            v = fact["values"]
+            fact["values"] = numpy.where(numpy.isfinite(v), numpy.round(v * 37.0) + off, v)
+            fact["offset"] = off
         weights = gen.weight_case(rng, n, cls=gen.pick(rng, ["none", "none", "array", "tuple"]), dyadic=False)
         if weights["kind"] != "none":
             # strictly positive weights (n/(n-1) with zero-weight rows has no textbook reading)
